@@ -26,6 +26,9 @@ clause -- the damage shows up in the property's own post-conditions on the real 
            arguments (its remaining options as in its own last call): state shared between two routines of a
            family (a common memo, a cached mask) is then set up by the sibling.
   spell    Python bool options are passed as np.bool_ or 0 / 1 on two calls out of three.
+  replay   a routine without a seed parameter (and that leaves the global generators alone) is a function of its
+           arguments: a few earlier calls are kept (private copies of the arguments, digest of the result) and
+           re-issued later, after whatever else happened in between: `same_call_same_result`.
   poison   on odd calls the caller receives a deep copy of the result and the original arrays are overwritten
            (a caller may do what it likes with an array it was given): state that still points at them is now
            garbage and the next call that trusts it fails its post-conditions.
@@ -45,9 +48,11 @@ import numpy as np
 
 ENABLED = os.environ.get('BCTMON_HISTORY', '1') != '0'
 ABORT_POINTS = (2, 5, 9, 14, 22, 35, 60, 110, 200, 400)
+ABORT_POINTS_HEAVY = (3, 17, 60, 150, 400, 800, 1600, 3200, 6400, 12800, 25000)   # routines that run for milliseconds: deep into their loops
 KEEP = 3
 PRIME_EVERY = 4
 CROSS_EVERY = 4
+REPLAY_EVERY = 6
 SOFT_DEADLINE = 1.0   # seconds for any unjudged call of this layer (only while a case watchdog is armed)
 EVERY = 8     # an aborted pre-call before every 8th call of a routine (toggling LINE events de-specialises its bytecode)
 
@@ -83,12 +88,15 @@ class History(object):
         self.n = {}         # fname -> call counter
         self.stats = {'reused_buffers': 0, 'fresh_buffers': 0, 'buffers_given_away': 0, 'aborted_precalls': 0,
                       'precalls_completed': 0, 'poisoned_results': 0, 'stability_rechecks': 0, 'primer_calls': 0,
-                      'primer_calls_raised': 0, 'sibling_calls': 0, 'respelled_flags': 0, 'sibling_calls_raised': 0, 'soft_deadline_hits': 0}
+                      'primer_calls_raised': 0, 'sibling_calls': 0, 'respelled_flags': 0, 'replayed_calls': 0, 'sibling_calls_raised': 0, 'soft_deadline_hits': 0}
         self.siblings_seen = {}
         self._mon_ok = None
         self._armed = None
         self.originals = []
         self.soft = False
+        self.cost = {}        # fname -> smoothed duration of the judged call (s)
+        self.memo = {}        # fname -> [(args, kwargs, result digest, call_no)]
+        self.nondet = set()
         self.banned = set()   # (kind, routine) whose unjudged call ran into the soft deadline once: not tried again
 
     # ---------------------------------------------------------------- unjudged calls
@@ -218,12 +226,14 @@ class History(object):
         if prev is None or not self._monitoring() or ('abort', name) in self.banned:
             return None
         n = self.n.get(name, 0)
-        if _pick(name, n, 'a') % EVERY:
+        heavy = self.cost.get(name, 0.0) > 0.004      # toggling LINE events costs nothing next to such a call
+        if _pick(name, n, 'a') % (2 if heavy else EVERY):
             return None
         code = getattr(fn, '__code__', None)
         if code is None:
             return None
-        j = ABORT_POINTS[_pick(name, n, 'j') % len(ABORT_POINTS)]
+        pts = ABORT_POINTS_HEAVY if heavy else ABORT_POINTS
+        j = pts[_pick(name, n, 'j') % len(pts)]
         mon = sys.monitoring
         self._armed = [code, j, 0]
         mon.set_local_events(self.TOOL, code, mon.events.LINE)
@@ -310,6 +320,104 @@ class History(object):
         if out == 'deadline':
             self.banned.add(('cross', g))   # outside its domain on this family's inputs (it loops): not a sibling here
         return g
+
+    # ---------------------------------------------------------------- replay
+    @staticmethod
+    def result_digest(obj, depth=0):
+        import hashlib
+        h = hashlib.blake2b(digest_size=8)
+
+        def walk(o, d):
+            if isinstance(o, np.ndarray):
+                h.update(str(o.dtype).encode() + str(o.shape).encode() + np.ascontiguousarray(o).tobytes())
+            elif isinstance(o, (list, tuple)) and d < 4:
+                h.update(b'[%d' % len(o))
+                for x in o:
+                    walk(x, d + 1)
+            elif isinstance(o, (int, float, complex, str, bool, np.generic)) or o is None:
+                h.update(repr(o).encode())
+            else:
+                h.update(type(o).__name__.encode())
+        walk(obj, depth)
+        return h.hexdigest()
+
+    def replay_due(self, name, n):
+        lst = self.memo.get(name)
+        if not lst or name in self.nondet or ('replay', name) in self.banned or _pick(name, n, 'y') % REPLAY_EVERY:
+            return None
+        return lst[_pick(name, n, 'z') % len(lst)]
+
+    @staticmethod
+    def agree(a, b, depth=0):
+        """integers, booleans, shapes and structure exactly; floats to 1e-6 of the result's scale (a LAPACK / BLAS
+        kernel may round differently for another memory alignment of equal data)"""
+        if isinstance(a, (list, tuple)):
+            return isinstance(b, (list, tuple)) and len(a) == len(b) and all(History.agree(x, y, depth + 1) for x, y in zip(a, b))
+        if isinstance(a, np.ndarray) or isinstance(a, (float, np.floating, complex, np.complexfloating)):
+            try:
+                x = np.asarray(a)
+                y = np.asarray(b)
+                if x.shape != y.shape:
+                    return False
+                if x.dtype.kind in 'fc' or y.dtype.kind in 'fc':
+                    if not np.array_equal(np.isfinite(x), np.isfinite(y)) or not np.array_equal(np.isnan(x), np.isnan(y)):
+                        return False
+                    m = np.isfinite(x)
+                    if not np.array_equal(x[~m & ~np.isnan(x)], y[~m & ~np.isnan(y)]):
+                        return False
+                    scale = float(np.max(np.abs(x[m]))) if m.any() else 0.0
+                    return bool(np.all(np.abs(x[m] - y[m]) <= 1e-6 * scale + 1e-300))
+                return bool(np.array_equal(x, y))
+            except Exception:  # noqa
+                return True
+        if isinstance(a, (int, bool, str, np.integer, np.bool_)) or a is None:
+            try:
+                return bool(a == b)
+            except Exception:  # noqa
+                return True
+        return True
+
+    def replay(self, name, fn, entry):
+        """re-issue an earlier call on private copies of its arguments; returns (ok, detail) or None if not judged"""
+        args, kwargs, first, no = entry
+        a2 = self.deep_copy(tuple(args))
+        k2 = {k: self.deep_copy(v) for k, v in kwargs.items()}
+        box = []
+
+        def thunk(*a, **k):
+            box.append(fn(*a, **k))
+        out = self._run(thunk, a2, k2)
+        if out == 'deadline':
+            self.banned.add(('replay', name))
+        if out != 'ok':
+            return None
+        self.stats['replayed_calls'] += 1
+        return self.agree(first, box[0]), {'function': name, 'first_issued_as_call_no': no, 'args': list(args), 'kwargs': kwargs,
+                                           'result_then': first, 'result_now': box[0]}
+
+    def record(self, name, fn, n, args, kwargs, result, rng_untouched):
+        if name in self.nondet:
+            return
+        if not rng_untouched or self.basis_dependent(fn):
+            self.nondet.add(name)
+            self.memo.pop(name, None)
+            return
+        if _pick(name, n, 'm') % 3:
+            return
+        size = sum(a.size for a in self.arrays_of(list(args) + list(kwargs.values()) + [result], []))
+        if size > 60000:
+            return
+        lst = self.memo.setdefault(name, [])
+        lst.append((self.deep_copy(tuple(args)), {k: self.deep_copy(v) for k, v in kwargs.items()}, self.deep_copy(result), n))
+        del lst[:-6]
+
+    @staticmethod
+    def basis_dependent(fn):
+        """an eigen-decomposition inside the routine: with a repeated eigenvalue the solver may return another basis of
+        the eigenspace for the same data (and a spectral bisection another sign) -- not a function of the arguments in
+        the bitwise sense, left to the property's own oracle"""
+        names = set(getattr(getattr(fn, '__code__', None), 'co_names', ()))
+        return bool(names & {'eig', 'eigh', 'eigs', 'eigsh', 'eigvals', 'eigvalsh', 'svd'})
 
     # ---------------------------------------------------------------- results
     @staticmethod
